@@ -32,11 +32,14 @@ for path in sorted(glob.glob(os.path.join(root, "handoff", "*.json"))):
     for k, v in h.get("manifest", {}).items():
         if k not in base.get("manifest_override", {}):
             manifest[k] = v
-    have = {(f["property"], f["id"]) for f in findings}
+    base_keys = {(f["property"], f["id"]) for f in base["findings"]}
     for f in h.get("findings", []):
-        if (f["property"], f["id"]) not in have:
-            f = dict(f); f.pop("fix_patch", None); f.pop("fix_note", None)
-            findings.append(f)
+        key = (f["property"], f["id"])
+        if key in base_keys:
+            continue
+        f = dict(f); f.pop("fix_patch", None); f.pop("fix_note", None)
+        findings[:] = [g for g in findings if (g["property"], g["id"]) != key]
+        findings.append(f)
     notes[name] = h.get("design_notes", "")
 index.update(base.get("index_override", {})); manifest.update(base.get("manifest_override", {}))
 
